@@ -60,6 +60,16 @@ Theorem C20_sort_unique : forall srt srt', S1 srt -> S1 srt' ->
 Proof. exact S1_unique. Qed.
 Print Assumptions C20_sort_unique.
 
+(* the formatter's result does not depend on which (S1) sort is used when every mapping has distinct
+   keys and every whitelisted list has distinct sort keys; this is the domain on which the
+   correspondence compares the implementation (pdqsort) with the model (insertion sort) beyond 12
+   entries *)
+Theorem C20_sort_independent : forall nonstr srt srt' kind api, S1 srt -> S1 srt' -> forall n s p,
+  distinct_sortkeys kind api p n = true ->
+  fmt_node nonstr srt kind api s p n = fmt_node nonstr srt' kind api s p n.
+Proof. exact fmt_sort_independent. Qed.
+Print Assumptions C20_sort_independent.
+
 (* ---- idempotence ----
    Full statement (all nodes):  fmt_node .. n = Ok n' -> fmt_node .. n' = Ok n'.
    It is FALSE for the code as written: see C20_idempotent_refuted (a list nested in the keyed
@@ -80,6 +90,22 @@ Theorem C20_idempotent_any_sort_partial : forall nonstr kind api srt, S1 srt -> 
   fmt_node nonstr srt kind api s p n = Ok n' -> fmt_node nonstr srt kind api s p n' = Ok n'.
 Proof. exact fmt_idem_S1. Qed.
 Print Assumptions C20_idempotent_any_sort_partial.
+
+(* the same for FormatFilter.Filter on a whole stream (annotation opt-out, kind / apiVersion lookup
+   included): filtering the filtered stream returns it unchanged *)
+Theorem C20_stream_idempotent_partial : forall nonstr docs outs,
+  Forall (fun d => doc_keyed_ok (fst d) = true) docs ->
+  filter_stream nonstr isort docs = Ok outs ->
+  filter_stream nonstr isort (combine outs (map snd docs)) = Ok outs.
+Proof. exact filter_stream_idem_isort. Qed.
+Print Assumptions C20_stream_idempotent_partial.
+
+Theorem C20_stream_idempotent_any_sort_partial : forall nonstr srt docs outs, S1 srt ->
+  Forall (fun d => wf_keys (fst d) = true /\ doc_keyed_ok (fst d) = true) docs ->
+  filter_stream nonstr srt docs = Ok outs ->
+  filter_stream nonstr srt (combine outs (map snd docs)) = Ok outs.
+Proof. exact filter_stream_idem_S1. Qed.
+Print Assumptions C20_stream_idempotent_any_sort_partial.
 
 Theorem C20_idempotent_refuted : forall nonstr, exists n n1 n2,
   wf_keys n = true /\
